@@ -147,6 +147,57 @@ theorem ioReverse_WF (w : World) (g : Nat) (k : IOKind) (h : WF w) : WF (ioRever
     · intros; rfl
     · intro g'; simp [ioReverse]; split <;> simp_all
 
+/-- rearranging a tracked list in place (`list.sort`): membership and multiplicities are those of a
+permutation, the counters / flags / owning graphs are not written -/
+theorem ioPermute_I_own (w : World) (g : Nat) (k : IOKind) (l : List Nat) (hp : l.Perm (ioList k (w.gr g)))
+    (h : I_own w) : I_own (ioPermute w g k l) := by
+  have hl : ∀ k' g', ∀ u, u ∈ ioList k' ((ioPermute w g k l).gr g') ↔ u ∈ ioList k' (w.gr g') := by
+    intro k' g' u; simp only [ioPermute, World.gr_setGr]; split
+    · subst_vars; cases k <;> cases k' <;> simp [setIoList, ioList] at hp ⊢ <;> exact hp.mem_iff
+    · rfl
+  have hc : ∀ k' g', ∀ u, (ioList k' ((ioPermute w g k l).gr g')).count u = (ioList k' (w.gr g')).count u := by
+    intro k' g' u; simp only [ioPermute, World.gr_setGr]; split
+    · subst_vars; cases k <;> cases k' <;> simp [setIoList, ioList] at hp ⊢ <;> exact hp.count_eq u
+    · rfl
+  have hcnt : ∀ k' g', ioCnt k' ((ioPermute w g k l).gr g') = ioCnt k' (w.gr g') := by
+    intro k' g'; simp only [ioPermute, World.gr_setGr]; split
+    · subst_vars; cases k <;> cases k' <;> simp [setIoList, ioCnt]
+    · rfl
+  have hi : ∀ g', ((ioPermute w g k l).gr g').inits = (w.gr g').inits := by
+    intro g'; simp only [ioPermute, World.gr_setGr]; split
+    · subst_vars; cases k <;> simp [setIoList]
+    · rfl
+  have hv : ∀ u, (ioPermute w g k l).val u = w.val u := fun u => rfl
+  constructor
+  · intro k' g' u; rw [hcnt, hc]; exact h.cnt k' g' u
+  · intro k' g' u; rw [hl, hv]; exact h.io_mem k' g' u
+  · intro k' u; rw [hv]; simp only [hl]; exact h.io_flag k' u
+  · intro g' key u; rw [hi, hv]; exact h.init_mem g' key u
+  · intro u; rw [hv]; simp only [hi]; exact h.init_flag u
+  · intro u g'; rw [hv]; exact h.graph_owned u g'
+
+theorem ioPermute_WF (w : World) (g : Nat) (k : IOKind) (l : List Nat) (hp : l.Perm (ioList k (w.gr g)))
+    (h : WF w) : WF (ioPermute w g k l) := by
+  refine ⟨?_, ?_, ?_, ioPermute_I_own _ _ _ _ hp h.own, ?_, ?_⟩
+  · apply I_use_congr _ _ h.use <;> intros <;> rfl
+  · apply I_prod_congr _ _ h.prod <;> intros <;> first | rfl | exact ⟨rfl, rfl⟩
+  · apply I_root_congr _ h.root; intros; exact ⟨rfl, rfl, rfl⟩
+  · apply I_key_congr _ _ h.key
+    · intros; rfl
+    · intro g'; simp only [ioPermute, World.gr_setGr]; split
+      · subst_vars; cases k <;> simp [setIoList]
+      · rfl
+  · apply I_node_congr _ _ h.node
+    · intros; rfl
+    · intro g'; simp only [ioPermute, World.gr_setGr]; split
+      · subst_vars; cases k <;> simp [setIoList]
+      · rfl
+
+theorem sortedBy_perm (keys : List Nat) (rev : Bool) (l : List Nat) : (sortedBy keys rev l).Perm l := by
+  unfold sortedBy; split
+  · exact (List.reverse_perm _).trans ((List.mergeSort_perm _ _).trans (List.reverse_perm _))
+  · exact List.mergeSort_perm _ _
+
 theorem initPut_WF (w : World) (g : Nat) (key : String) (v : Nat) (h : WF w) : WF (initPut w g key v) :=
   ⟨initPut_I_use _ _ _ _ h.use, initPut_I_prod _ _ _ _ h.prod, initPut_I_root _ _ _ _ h.root,
    initPut_I_own _ _ _ _ h.own h.key, initPut_I_key _ _ _ _ h.own h.key, initPut_I_node _ _ _ _ h.node⟩
@@ -326,6 +377,7 @@ theorem ioMut_WF (w : World) (g : Nat) (k : IOKind) (m : IOMut) (h : WF w) : WF 
   case reverse => exact guardOp_WF _ _ _ _ h (ioReverse_WF _ _ _ h)
   case iadd vs => exact h
   case imul k => exact h
+  case sort keys rev => exact guardOp_WF _ _ _ _ h (ioPermute_WF _ _ _ _ (sortedBy_perm _ _ _) h)
 
 theorem initSetItem_WF (w : World) (g : Nat) (key : String) (v : Nat) (h : WF w) :
     WF (initSetItem w g key v).1 :=
@@ -455,6 +507,75 @@ theorem setConst_WF (w : World) (v : Nat) (lk : Bool) (h : WF w) : WF (setConst 
   · intro n; exact ⟨rfl, rfl, rfl⟩
   · intro g; exact ⟨rfl, rfl, rfl, rfl, rfl, rfl⟩
 
+/-! ### fields no clause reads: attribute dicts, node names / op types, const tensors -/
+
+/-- **the frame lemma of attribute edits**: replacing the attribute dict of a node writes no field that
+`WF` reads — every value record, every graph record, and the inputs / outputs / owning graph / name / op type
+of every node are what they were -/
+theorem setAttrs_frame (w : World) (n : Nat) (as : List (String × List Nat)) :
+    (∀ v, (setAttrs w n as).val v = w.val v) ∧ (∀ g, (setAttrs w n as).gr g = w.gr g) ∧
+    (∀ m, ((setAttrs w n as).node m).inputs = (w.node m).inputs ∧
+      ((setAttrs w n as).node m).outputs = (w.node m).outputs ∧
+      ((setAttrs w n as).node m).graph = (w.node m).graph ∧
+      ((setAttrs w n as).node m).name = (w.node m).name ∧
+      ((setAttrs w n as).node m).opType = (w.node m).opType) ∧
+    (setAttrs w n as).late = w.late ∧ (setAttrs w n as).tensors = w.tensors ∧
+    (setAttrs w n as).locked = w.locked ∧ (setAttrs w n as).extra = w.extra := by
+  refine ⟨fun _ => rfl, fun _ => rfl, ?_, rfl, rfl, rfl, rfl⟩
+  intro m; simp only [setAttrs, World.node_setNode]; split
+  · subst_vars; exact ⟨rfl, rfl, rfl, rfl, rfl⟩
+  · exact ⟨rfl, rfl, rfl, rfl, rfl⟩
+
+theorem setAttrs_WF (w : World) (n : Nat) (as : List (String × List Nat)) (h : WF w) : WF (setAttrs w n as) := by
+  obtain ⟨hv, hg, hn, _⟩ := setAttrs_frame w n as
+  apply WF_of_same_core _ _ _ h
+  · intro v; rw [hv]; simp
+  · intro m; exact ⟨(hn m).1, (hn m).2.1, (hn m).2.2.1⟩
+  · intro g; rw [hg]; simp
+
+theorem withAttrs_WF (r : World × Outcome) (n : Nat) (as : List (String × List Nat)) (h : WF r.1) :
+    WF (withAttrs r n as).1 := by
+  unfold withAttrs; split
+  · exact setAttrs_WF _ _ _ h
+  · exact h
+
+theorem setNodeName_WF (w : World) (n : Nat) (s : Option String) (h : WF w) : WF (setNodeName w n s).1 := by
+  apply guardOp_WF _ _ _ _ h
+  have h1 : WF (w.setNode n { w.node n with name := s }) := by
+    apply WF_of_same_core _ _ _ h
+    · intro v; simp
+    · intro m; simp; split
+      · subst_vars; simp
+      · simp
+    · intro g; simp
+  simp only []
+  split
+  · exact setAuth_WF _ _ _ ⟨rfl, rfl, rfl, rfl, rfl, rfl⟩ h1
+  · exact h1
+
+theorem setOpType_WF (w : World) (n : Nat) (s : String) (h : WF w) : WF (setOpType w n s).1 := by
+  apply guardOp_WF _ _ _ _ h
+  apply WF_of_same_core _ _ _ h
+  · intro v; simp
+  · intro m; simp; split
+    · subst_vars; simp
+    · simp
+  · intro g; simp
+
+theorem clearConst_WF (w : World) (v : Nat) (h : WF w) : WF (clearConst w v).1 := by
+  apply guardOp_WF _ _ _ _ h
+  apply WF_of_same_core _ _ _ h
+  · intro u; simp; split
+    · subst_vars; simp
+    · simp
+  · intro n; exact ⟨rfl, rfl, rfl⟩
+  · intro g; exact ⟨rfl, rfl, rfl, rfl, rfl, rfl⟩
+
+theorem graphSort_WF (w : World) (g : Nat) (h : WF w) : WF (graphSort w g).1 := by
+  unfold graphSort; split
+  · exact h
+  · exact guardOp_WF _ _ _ _ h (sortApply_WF _ _ h)
+
 theorem step_WF (w : World) (op : Op) (h : WF w) : WF (step w op).1 := by
   cases op <;> simp only [step]
   case newValue name => exact newValue_WF _ _ h
@@ -476,6 +597,15 @@ theorem step_WF (w : World) (op : Op) (h : WF w) : WF (step w op).1 := by
   case sortOk orders => exact guardOp_WF _ _ _ _ h (sortApply_WF _ _ h)
   case sortCycle => exact guardOp_WF _ _ _ _ h h
   case attrEdit => exact guardOp_WF _ _ _ _ h h
+  case newNodeAttrs opType name inputs numOutputs outputs graph attrs =>
+    exact withAttrs_WF _ _ _ (newNode_WF _ _ _ _ _ _ _ h)
+  case sort g => exact graphSort_WF _ _ h
+  case setNodeName n s => exact setNodeName_WF _ _ _ h
+  case setOpType n s => exact setOpType_WF _ _ _ h
+  case clearConst v => exact clearConst_WF _ _ h
+  case attrSet n key gs => exact guardOp_WF _ _ _ _ h (setAttrs_WF _ _ _ h)
+  case attrDel n key strict => exact guardOp_WF _ _ _ _ h (setAttrs_WF _ _ _ h)
+  case attrClear n => exact guardOp_WF _ _ _ _ h (setAttrs_WF _ _ _ h)
 
 
 /-! ### composite calls -/
@@ -504,6 +634,12 @@ theorem rauwManyChecked_WF (w : World) (vs rs : List Nat) (rgo : Bool) (h : WF w
   · split
     · exact h
     · exact rauwSeq_WF _ _ _ h
+
+theorem rauwManyExact_WF (w : World) (vs rs : List Nat) (rgo : Bool) (h : WF w) :
+    WF (rauwManyExact w vs rs rgo).1 := by
+  unfold rauwManyExact; split
+  · exact h
+  · exact guardOp_WF _ _ _ _ h (rauwSeq_WF _ _ _ h)
 
 theorem setNameIfPlain_WF (w : World) (v : Nat) (s : Option String) (h : WF w) : WF (setNameIfPlain w v s) := by
   unfold setNameIfPlain; split
@@ -562,11 +698,58 @@ theorem replaceNodesAndValues_WF (w : World) (g ip : Nat) (oldNodes newNodes old
   intro w3 h3
   exact graphRemove_WF _ _ _ _ h3
 
+theorem tapeInitializer_WF (w : World) (g : Option Nat) (name tname : Option String) (locked : Bool) (h : WF w) :
+    WF (tapeInitializer w g name tname locked).1 := by
+  unfold tapeInitializer
+  split
+  · exact h
+  · rename_i nm _
+    have h0 : WF { w with tensors := lset w.tensors w.tensors.length tname,
+                          locked := lset w.locked w.tensors.length locked } := by
+      apply WF_of_same_core _ _ _ h
+      · intro v; exact ⟨rfl, rfl, rfl, rfl, rfl, rfl, rfl, rfl⟩
+      · intro n; exact ⟨rfl, rfl, rfl⟩
+      · intro g; exact ⟨rfl, rfl, rfl, rfl, rfl, rfl⟩
+    have h1 := allocVal_WF _ { name := some nm, const := some w.tensors.length } rfl rfl rfl rfl rfl rfl h0
+    split
+    · exact h1
+    · exact initMut_WF _ _ _ h1
+
+theorem setNameSeq_WF : ∀ (ps : List (Nat × String)) (w : World), WF w → WF (setNameSeq w ps).1
+  | [], _, h => h
+  | (v, s) :: rest, w, h => by
+    unfold setNameSeq
+    exact andThen_WF _ _ (setName_WF w v _ h) (fun w1 h1 => setNameSeq_WF rest w1 h1)
+
+theorem builderNode_WF (w : World) (g : Option Nat) (opType : String) (inputs : List (Option Nat)) (k : Nat)
+    (names : Option (List String)) (h : WF w) : WF (builderNode w g opType inputs k names).1 := by
+  unfold builderNode
+  apply andThen_WF _ _ (newNode_WF _ _ _ _ _ _ _ h)
+  intro w1 h1
+  split
+  · exact h1
+  · exact setNameSeq_WF _ _ h1
+
+theorem replaceNodesAndValuesExact_WF (w : World) (g ip : Nat) (oldNodes newNodes oldVals newVals : List Nat)
+    (h : WF w) : WF (replaceNodesAndValuesExact w g ip oldNodes newNodes oldVals newVals).1 := by
+  unfold replaceNodesAndValuesExact
+  apply andThen_WF _ _ (copyInfo_WF _ _ h)
+  intro w1 h1
+  apply andThen_WF _ _ (rauwManyExact_WF _ _ _ _ h1)
+  intro w2 h2
+  apply andThen_WF _ _ (graphInsertAfter_WF _ _ _ _ h2)
+  intro w3 h3
+  exact graphRemove_WF _ _ _ _ h3
+
 theorem stepConv_WF (w : World) (op : ConvOp) (h : WF w) : WF (stepConv w op).1 := by
   cases op <;> simp only [stepConv]
+  case tapeInitializer g name tname locked => exact tapeInitializer_WF _ _ _ _ _ h
+  case builderNode g opType inputs k names => exact builderNode_WF _ _ _ _ _ _ h
   case rauwMany vs rs rgo => exact rauwMany_WF _ _ _ _ h
+  case rauwManyExact vs rs rgo => exact rauwManyExact_WF _ _ _ _ h
   case renameValues vs names => exact renameValues_WF _ _ _ h
   case replaceNodesAndValues g ip a b c d => exact replaceNodesAndValues_WF _ _ _ _ _ _ _ h
+  case replaceNodesAndValuesExact g ip a b c d => exact replaceNodesAndValuesExact_WF _ _ _ _ _ _ _ h
 
 theorem stepAny_WF (w : World) (op : AnyOp) (h : WF w) : WF (stepAny w op).1 := by
   cases op with
